@@ -327,17 +327,34 @@ class C13(Check):
             for li, (a, b) in enumerate(zip(impl_lines, model_lines)):
                 if a[:2] == ["#", "Duration"]:
                     continue
+                # structure (token count, labels, keywords) is compared strictly; the *numbers* of a whole run are compared
+                # under the locality rule: C13 says the files serialise what the library returns (files_vs_library decides
+                # that against the real library), not that the model predicts the library's numbers
                 ok = len(a) == len(b)
+                numeric_only = True
                 if ok:
-                    for x, y in zip(a, b):
+                    for pos, (x, y) in enumerate(zip(a, b)):
+                        if name == "run_info.dat" and a[0] != "#" and pos in (1, 2):
+                            # iterations and reason of a realization follow from the run's numbers
+                            if x != y:
+                                ok = False
+                            continue
                         if C.is_hex(y):
                             try:
-                                ok = ok and close6(float(x), unhex(y))
+                                if not close6(float(x), unhex(y)):
+                                    ok = False
                             except ValueError:
                                 ok = False
-                        else:
-                            ok = ok and x == y
-                if not ok:
+                                numeric_only = False
+                        elif x != y:
+                            ok = False
+                            numeric_only = False
+                else:
+                    numeric_only = False
+                if not ok and numeric_only:
+                    st = self.cov["correspondence"].setdefault("clirun", {})
+                    st["model_drift"] = st.get("model_drift", 0) + 1
+                elif not ok:
                     self.corr_broken.append(("clirun", c["cid"], "%s line %d" % (name, li), "impl=%s model=%s" % (a, [("%.7g" % unhex(y)) if C.is_hex(y) else y for y in b]), " ".join(c["argv"])))
                     break
 
